@@ -88,14 +88,22 @@ theorem substituteDefinedVariables_sound (F : Formula) :
     ClassEquiv (substituteDefinedVariables F) F :=
   substituteDefinedVariables_classEquiv F
 
-/-- **C07 for the classic portfolio, with the two `unstable` rewrites that are not yet proved as
-    explicit hypotheses** (restrict_quantifier_domain, simplify_transitive_equality; both are
-    tied to the implementation by exact correspondence and were repaired by fix: 8154c20 /
-    f1b4fb0). Everything else in the concatenation is proved. -/
-theorem portfolio_sound_classic_partial
-    (h1 : ∀ F, ClassEquiv (restrictQuantifierDomain F) F)
-    (h2 : ∀ F, ClassEquiv (simplifyTransitiveEquality F) F)
-    (s : Strategy) (fuel : Nat) (F : Formula) :
+/-- `restrict_quantifier_domain` preserves classical meaning (both forms; rests on C17, on the
+    freshness of `choose_fresh_variable_names`, and on the inner equation `I$i = Z` forcing the
+    not-rebound general variable `Z` to an integer; needs the repair fix: 8154c20). -/
+theorem restrictQuantifierDomain_sound (F : Formula) : ClassEquiv (restrictQuantifierDomain F) F :=
+  restrictQuantifierDomain_classEquiv F
+
+/-- `simplify_transitive_equality` preserves classical meaning (needs the repair fix: f1b4fb0:
+    only one copy of a duplicated non-reflexive equation is dropped). -/
+theorem simplifyTransitiveEquality_sound (F : Formula) :
+    ClassEquiv (simplifyTransitiveEquality F) F :=
+  simplifyTransitiveEquality_classEquiv F
+
+/-- **C07 for the classic portfolio, unconditional**: every rewrite of
+    `INTUITIONISTIC ++ HT ++ CLASSIC`, under every strategy and any number of passes, preserves
+    classical satisfaction in every interpretation under every assignment. -/
+theorem portfolio_sound_classic (s : Strategy) (fuel : Nat) (F : Formula) :
     ClassEquiv (simplifyWith .classic s fuel F).1 F := by
   refine portfolio_sound_classic_of ?_ s fuel F
   intro r hr
@@ -103,9 +111,9 @@ theorem portfolio_sound_classic_partial
   rcases hr with rfl | rfl | rfl | rfl | rfl
   · exact removeDoubleNegation_classEquiv
   · exact substituteDefinedVariables_classEquiv
-  · exact h1
+  · exact restrictQuantifierDomain_classEquiv
   · exact extendQuantifierScope_sound
-  · exact h2
+  · exact simplifyTransitiveEquality_classEquiv
 
 /-- Non-vacuity: the portfolio really rewrites something (`p and #true` becomes `p`). -/
 example : (simplifyWith .intuitionistic .fixpoint 8
